@@ -51,6 +51,19 @@ def h_factory(ctx, kind, cfg, twin=False):
             else:
                 ctx.holds("holder (%s): accessor of another kind raises TypeError" % held_name, isinstance(e, TypeError),
                           ("%s on %s: " % (acc, kind)) + (exc_name(e) if e is not None else "returned %s" % type(r).__name__))
+    # a holder that is re-filled with a PDU of another kind answers for the new content
+    other_kind = "prompt" if kind != "prompt" else "ack"
+    other = build(LenCtx(), other_kind, (1, 1, 0, 0), VAR[other_kind]).pdu
+    holder = PduHolder(u)
+    call(getattr(holder, ACCESSORS[kind]))
+    holder.pdu = other
+    e, r = call(getattr(holder, ACCESSORS[other_kind]))
+    ctx.holds("re-filled holder: accessor of the new kind returns the new PDU", e is None and r is other, exc_name(e))
+    e, r = call(getattr(holder, ACCESSORS[kind]))
+    ctx.holds("re-filled holder: accessor of the old kind raises TypeError", isinstance(e, TypeError),
+              exc_name(e) if e is not None else "returned %s" % type(r).__name__)
+    ctx.holds("re-filled holder: type and directive follow the new content", sym_and(
+        holder.pdu_directive_type == DIRECTIVE_CODE[other_kind], holder.packet_len == other.packet_len))
     if twin:
         ctx.holds("twin", u != b.pdu)
 
